@@ -1031,6 +1031,112 @@ fn main() {
         },
     );
 
+    // ---------------------------------------------------------------- clones
+    // "Rendering does not modify the engine": also not an engine it was CLONED from or into. An
+    // instance with fallback prefixes is cloned, the clone gets templates of higher priority, and
+    // both are rendered in every order; each render must give what an instance built from scratch
+    // with the same templates gives. (Seeded change C18-12 cached what a name resolved to through a
+    // prefix behind an Arc that `Tera::clone` shared.)
+    {
+        const BASE: [(&str, &str); 4] = [
+            ("themes/default/header.html", "D-head{{ a }}"),
+            ("themes/default/layout.html", "<{% block c %}L{% endblock %}>"),
+            ("page.html", "{% for i in [1, 2] %}{% include \"header.html\" %}{% endfor %}|{{ a }}"),
+            ("child.html", "{% extends \"layout.html\" %}{% block c %}C{{ super() }}{% endblock %}"),
+        ];
+        const EXT: [(&str, &str); 2] = [("themes/custom/header.html", "C-head"), ("themes/custom/layout.html", "[{% block c %}X{% endblock %}]")];
+        const CALLS: [&str; 3] = ["render(page.html)", "render(child.html)", "render_str({% include \"header.html\" %})"];
+        const OPS: [&str; 8] = [
+            "base: render(page.html)", "base: render(child.html)", "base: render_str(include header.html)",
+            "clone: render(page.html)", "clone: render(child.html)", "clone: render_str(include header.html)",
+            "clone := base.clone() + themes/custom/header.html + themes/custom/layout.html",
+            "clone := base.clone()",
+        ];
+        let scratch = |ext: bool| {
+            let mut t = Tera::default();
+            t.set_fallback_prefixes(["themes/custom/", "themes/default/"]).expect("prefixes on an empty instance");
+            let mut tpls: Vec<(&str, &str)> = BASE.to_vec();
+            if ext {
+                tpls.extend(EXT);
+            }
+            t.add_raw_templates(tpls).expect("the clone family's templates load");
+            t
+        };
+        let ctx = {
+            let mut c = Context::new();
+            c.insert("a", "<a>");
+            c
+        };
+        let call = |t: &Tera, k: usize| match k {
+            0 => engine::render(t, "page.html", &ctx),
+            1 => engine::render(t, "child.html", &ctx),
+            _ => engine::render_str(t, "{% include \"header.html\" %}", &ctx, true),
+        };
+        let max_len = 4u32;
+        let n_ops = OPS.len() as u64;
+        let total: u64 = (1..=max_len).map(|l| n_ops.pow(l)).sum();
+        run.family(
+            Family::new(
+                "clones",
+                total,
+                &format!("ALL sequences of length <= {max_len} over {n_ops} operations on an instance with two fallback prefixes and a clone of it: 3 calls ({}) on either, cloning with and without two higher-priority templates added to the clone; every render against an instance built from scratch with the same templates", CALLS.join(", ")),
+            )
+            .describe(|item| {
+                let (mut l, mut i) = (1u32, item);
+                while i >= n_ops.pow(l) {
+                    i -= n_ops.pow(l);
+                    l += 1;
+                }
+                let seq: Vec<&str> = (0..l).rev().map(|p| OPS[((i / n_ops.pow(p)) % n_ops) as usize]).collect();
+                json!({"operations": seq})
+            }),
+            |item, acc: &mut Acc| {
+                let (mut l, mut i) = (1u32, item);
+                while i >= n_ops.pow(l) {
+                    i -= n_ops.pow(l);
+                    l += 1;
+                }
+                let seq: Vec<usize> = (0..l).rev().map(|p| ((i / n_ops.pow(p)) % n_ops) as usize).collect();
+                // a sequence is well-formed when the clone exists before it is used
+                let mut have = false;
+                for &o in &seq {
+                    if (3..6).contains(&o) && !have {
+                        return;
+                    }
+                    have |= o >= 6;
+                }
+                let refs = [scratch(false), scratch(true)];
+                let base = scratch(false);
+                let mut fork: Option<(Tera, usize)> = None;
+                for (step, &o) in seq.iter().enumerate() {
+                    match o {
+                        6 => {
+                            let mut c = base.clone();
+                            c.add_raw_templates(EXT.to_vec()).expect("the clone takes the higher-priority templates");
+                            fork = Some((c, 1));
+                        }
+                        7 => fork = Some((base.clone(), 0)),
+                        _ => {
+                            let (t, r, k) = if o < 3 { (&base, 0, o) } else { let f = fork.as_ref().unwrap(); (&f.0, f.1, o - 3) };
+                            let got = call(t, k);
+                            let want = call(&refs[r], k);
+                            if got != want {
+                                acc.violation(
+                                    format!("clone-dependent-render:{}", if o < 3 { "original" } else { "clone" }),
+                                    format!("step {step} ({}) gave {}, an instance built from scratch with the same templates gives {}", OPS[o], got.show(), want.show()),
+                                    || json!({"operations": seq.iter().map(|o| OPS[*o]).collect::<Vec<_>>(), "fallback_prefixes": ["themes/custom/", "themes/default/"],
+                                              "templates": BASE.iter().map(|(n, s)| json!({"name": n, "source": s})).collect::<Vec<_>>(),
+                                              "added_to_the_clone": EXT.iter().map(|(n, s)| json!({"name": n, "source": s})).collect::<Vec<_>>()}),
+                                );
+                            }
+                            acc.case(true, if r == 1 { "clone-with-more-templates" } else { "same-templates" });
+                        }
+                    }
+                }
+            },
+        );
+    }
+
     // ---------------------------------------------------------------- purity
     let names_before: Vec<String> = {
         let mut v: Vec<String> = w.tera.get_template_names().map(|s| s.to_string()).collect();
